@@ -184,3 +184,15 @@ theorem handlerLoop_rule :
   rw [handlerLoop_eq]; decide
 
 end Nsq.Tie.ToolsRelay
+
+/-! ### the consumer configuration the relays' `main()` start with (finding `gives-up-after-max-attempts`) -/
+namespace Nsq.Tie.ToolsRelay
+
+/-- both relays leave go-nsq's struct-tag default `max_attempts = 5` in place (no assignment to
+`MaxAttempts` in `main()`); the operator's `--consumer-opt max_attempts,N` is applied by `flag.Parse()` -/
+theorem relays_run_with_library_default :
+    Nsq.Gen.ToolsRelay.n2hMaxAttempts = 5 ∧ Nsq.Gen.ToolsRelay.n2nMaxAttempts = 5
+    ∧ Nsq.Gen.ToolsRelay.n2hMaxAttempts_overridable = true ∧ Nsq.Gen.ToolsRelay.n2nMaxAttempts_overridable = true := by
+  decide
+
+end Nsq.Tie.ToolsRelay
